@@ -24,7 +24,7 @@ def BiCGSTAB_reset(Op,rhs,x0,eps=1e-6,nmax=40):
     
     # choose rop
     r0p = tn.rand(r.shape,dtype = x0.dtype)
-    while tn.dot(r.squeeze(),r0p.squeeze()) == 0:
+    while tn.vdot(r0p.squeeze(),r.squeeze()) == 0:
         r0p = tn.rand(r.shape,dtype = x0.dtype)
         
     p = r
@@ -36,14 +36,14 @@ def BiCGSTAB_reset(Op,rhs,x0,eps=1e-6,nmax=40):
     for k in range(nmax):
         nit += 1
         Ap = Op.matvec(p)
-        alpha = tn.dot(r.squeeze(),r0p.squeeze()) / tn.dot(Ap.squeeze(),r0p.squeeze())
+        alpha = tn.vdot(r0p.squeeze(),r.squeeze()) / tn.vdot(r0p.squeeze(),Ap.squeeze())
         s = r - alpha * Ap
         if tn.linalg.norm(s)<=eps*norm_rhs:
             x_n = x+alpha*p
             break
         
         As = Op.matvec(s)
-        omega = tn.dot(As.squeeze(),s.squeeze()) / tn.dot(As.squeeze(),As.squeeze())
+        omega = tn.vdot(As.squeeze(),s.squeeze()) / tn.vdot(As.squeeze(),As.squeeze())
         
         x_n = x + alpha*p + omega*s
         r_n = s - omega*As
@@ -55,10 +55,10 @@ def BiCGSTAB_reset(Op,rhs,x0,eps=1e-6,nmax=40):
             #print(r_n)
             break
         
-        beta = (alpha/omega)*tn.dot(r_n.squeeze(),r0p.squeeze())/tn.dot(r.squeeze(),r0p.squeeze())
+        beta = (alpha/omega)*tn.vdot(r0p.squeeze(),r_n.squeeze())/tn.vdot(r0p.squeeze(),r.squeeze())
         p = r_n+beta*(p-omega*Ap)
         
-        if abs(tn.dot(r_n.squeeze(),r0p.squeeze())) < 1e-6:
+        if abs(tn.vdot(r0p.squeeze(),r_n.squeeze())) < 1e-6:
             r0p = r_n
             p_n = r_n
         # updates
@@ -125,7 +125,7 @@ def gmres( LinOp, b, x0, N, max_iterations, threshold):
         
         tme = datetime.datetime.now()
         for i in range(k+1):
-            H[i,k] = tn.dot(q.squeeze(),Q[:,i])
+            H[i,k] = tn.vdot(Q[:,i],q.squeeze())
             q = q - tn.reshape(H[i,k]*Q[:,i],[-1,1])
             # H[i,k] = tn.sum(q*Qs[i])
             # q = q - H[i,k]*Qs[i]
@@ -149,7 +149,7 @@ def gmres( LinOp, b, x0, N, max_iterations, threshold):
         # print('time 3',tme,' time 32', tme2)
         
         beta[k+1] = -sn[k]*beta[k]
-        beta[k] = cs[k]*beta[k]
+        beta[k] = tn.conj(cs[k])*beta[k]
         error = tn.abs(beta[k+1]) / b_norm
         err.append(error)
         
@@ -171,20 +171,20 @@ def apply_givens_rotation(h, cs, sn, k):
     cs = cs.cpu().numpy()
     sn = sn.cpu().numpy()
     for i in range(k-1):
-        temp   =  cs[i]* h[i] + sn[i] * h[i+1]
+        temp   =  np.conj(cs[i])* h[i] + np.conj(sn[i]) * h[i+1]
         h[i+1] = -sn[i] * h[i] + cs[i] * h[i+1]
         h[i]   = temp
   
     cs_k, sn_k = givens_rotation(h[k-1], h[k])
 
  
-    h[k-1] = cs_k * h[k-1] + sn_k * h[k]
+    h[k-1] = np.conj(cs_k) * h[k-1] + np.conj(sn_k) * h[k]
     h[k] = 0.0
     return tn.tensor(h).to(dev), tn.tensor(cs_k).to(dev), tn.tensor(sn_k).to(dev)
 
 def givens_rotation(v1,v2):
    
-    den = np.sqrt(v1**2+v2**2)
+    den = np.sqrt(np.abs(v1)**2+np.abs(v2)**2)
     return v1/den, v2/den
 
 
